@@ -256,19 +256,26 @@ def run(ctx) -> None:
     # (argument roles are decided on the tree: the first argument is the event parameter, the second ranges over the filter)
     params = [a.arg for a in qfi.node.args.args if a.arg != "self"]
     evparam = params[0] if params else "event"
+    from ..flow import origins as _origins
+
+    def is_filter(expr) -> bool:
+        """The expression is the emitter's filter (possibly through a local and a container constructor)."""
+        o = _origins(qfi.node, expr)
+        return bool(o) and all(b == "self._event_filter" and set(w) <= {"tuple", "list", "frozenset", "set", "sorted"} for b, w in o)
+
     shape = False
     for n in ast.walk(qfi.node):
         if isinstance(n, ast.Call) and isinstance(n.func, ast.Name) and n.func.id == "isinstance" and len(n.args) == 2:
             first_ok = isinstance(n.args[0], ast.Name) and n.args[0].id == evparam
             second = n.args[1]
             second_ok = False
-            if isinstance(second, ast.Call) and ast.unparse(second.func) == "tuple" and second.args and ast.unparse(second.args[0]).endswith("_event_filter"):
+            if isinstance(second, ast.Call) and ast.unparse(second.func) == "tuple" and second.args and is_filter(second.args[0]):
                 second_ok = True
             elif isinstance(second, ast.Name):
                 for g in ast.walk(qfi.node):
-                    if isinstance(g, ast.comprehension) and isinstance(g.target, ast.Name) and g.target.id == second.id and ast.unparse(g.iter).endswith("_event_filter"):
+                    if isinstance(g, ast.comprehension) and isinstance(g.target, ast.Name) and g.target.id == second.id and is_filter(g.iter):
                         second_ok = True
-                    if isinstance(g, ast.For) and isinstance(g.target, ast.Name) and g.target.id == second.id and ast.unparse(g.iter).endswith("_event_filter"):
+                    if isinstance(g, ast.For) and isinstance(g.target, ast.Name) and g.target.id == second.id and is_filter(g.iter):
                         second_ok = True
             if first_ok and second_ok:
                 shape = True
@@ -293,6 +300,7 @@ VARIANTS = [
     dict(name="B base classes select nothing (pre-fix)", expect="fire", rule="C11/mask-covers-need", edits=[(IN, "for cls in {c for c in concrete_classes for f in self._event_filter if issubclass(c, f)}:", "for cls in self._event_filter:")]),
     dict(name="B delete-self dropped", expect="fire", rule="C11/mask-covers-bookkeeping", edits=[(IN, "        event_mask = InotifyConstants.IN_DELETE_SELF\n", "        event_mask = 0\n")]),
     dict(name="B queue-time filter removed", expect="fire", rule="C11/filter-at-queue-time", edits=[("observers/api.py", "        if self._event_filter is None or any(isinstance(event, cls) for cls in self._event_filter):\n            self._event_queue.put((event, self.watch))", "        self._event_queue.put((event, self.watch))")]),
+    dict(name="E filter read once into a local, guard clause", expect="silent", edits=[("observers/api.py", "        if self._event_filter is None or any(isinstance(event, cls) for cls in self._event_filter):\n            self._event_queue.put((event, self.watch))", "        event_filter = self._event_filter\n        if event_filter is not None and not any(isinstance(event, cls) for cls in event_filter):\n            return\n        self._event_queue.put((event, self.watch))")]),
     dict(name="B isinstance arguments swapped", expect="fire", rule="C11/filter-at-queue-time", edits=[("observers/api.py", "isinstance(event, cls) for cls in self._event_filter", "isinstance(cls, event) for cls in self._event_filter")]),
     dict(name="E isinstance over a tuple of the filter", expect="silent", edits=[("observers/api.py", "any(isinstance(event, cls) for cls in self._event_filter)", "isinstance(event, tuple(self._event_filter))")]),
     dict(name="B filtered watch falls back to a mask for None", expect="fire", rule="C11/unfiltered-mask", edits=[(IN, "        if self._event_filter is None:\n            return None\n", "        if self._event_filter is None:\n            return InotifyConstants.IN_DELETE_SELF\n")]),
